@@ -215,6 +215,45 @@ func InLibrary(fn *ssa.Function) bool { return IsLibraryPkg(FnPkgPath(fn)) }
 // LookupFunc finds a package-level function or a method. name is "Func" or
 // "(*T).Method" / "(T).Method" / "T.Method".
 func (p *Program) LookupFunc(rel, name string) *types.Func {
+	if f := p.lookupFuncExact(rel, name); f != nil {
+		return f
+	}
+	// An anchor names a role, not a spelling: if the method was turned into a plain function taking the former
+	// receiver as its first parameter (or the reverse), or moved to another receiver type of the same package, the
+	// unique function or method of the package with the same base name is the anchor.
+	pkg := p.Pkg(rel)
+	if pkg == nil {
+		return nil
+	}
+	base := name
+	if i := strings.LastIndex(name, "."); i >= 0 {
+		base = name[i+1:]
+	}
+	var found []*types.Func
+	scope := pkg.Types.Scope()
+	for _, n := range scope.Names() {
+		switch o := scope.Lookup(n).(type) {
+		case *types.Func:
+			if o.Name() == base {
+				found = append(found, o)
+			}
+		case *types.TypeName:
+			if named, ok := o.Type().(*types.Named); ok {
+				for i := 0; i < named.NumMethods(); i++ {
+					if m := named.Method(i); m.Name() == base {
+						found = append(found, m)
+					}
+				}
+			}
+		}
+	}
+	if len(found) == 1 {
+		return found[0]
+	}
+	return nil
+}
+
+func (p *Program) lookupFuncExact(rel, name string) *types.Func {
 	pkg := p.Pkg(rel)
 	if pkg == nil {
 		return nil
